@@ -32,14 +32,14 @@
 EXTENDS Naturals, Sequences, FiniteSets, TLC
 
 CONSTANTS MaxUp, MaxDown,   \* units the application / the target may write
-          Link,             \* "tcp" | "tls" | "quic"      (ws/wss behave as tcp/tls at this level)
+          Link,             \* "tcp" | "tls" | "quic" | "ws"   (wss behaves as ws; ws as tcp except for the Close frame, see SrcEof)
           Reach,            \* "ok" | "refused"            (refused stands for unresolvable too)
           Cut,              \* BOOLEAN: the environment may cut the link between client and server once (C15)
           Dev
 
 VARIABLES
   \* RelayAbs' variables
-  phase, want, reach, dials, sentUp, gotUp, sentDown, gotDown, appClosed, tgtClosed, cleanApp, cleanTgt, appSaw, tgtSaw, fault,
+  phase, want, reach, dials, sentUp, gotUp, sentDown, gotDown, appClosed, tgtClosed, cleanApp, cleanTgt, appSaw, tgtSaw, fault, lapsed,
   \* design
   sq, rq, fin, rst,        \* per channel 1..6
   ep,                      \* endpoint state: "open" | "shut" | "dropped";  A CA CL SL ST T
@@ -47,7 +47,7 @@ VARIABLES
   relay,                   \* [c |-> ..., s |-> ...]: "wait" | "run" | "grace" | "dropped"
   noise                    \* TLS records the relay never asked for, at the client's link endpoint: 0 none yet, 1 unread, 2 consumed
 
-absVars == <<phase, want, reach, dials, sentUp, gotUp, sentDown, gotDown, appClosed, tgtClosed, cleanApp, cleanTgt, appSaw, tgtSaw, fault>>
+absVars == <<phase, want, reach, dials, sentUp, gotUp, sentDown, gotDown, appClosed, tgtClosed, cleanApp, cleanTgt, appSaw, tgtSaw, fault, lapsed>>
 desVars == <<sq, rq, fin, rst, ep, pump, relay, noise>>
 vars == <<absVars, desVars>>
 
@@ -174,12 +174,13 @@ TgtClose(how) == RA!TgtClose(how) /\ EnvClose("T", how)
 \* RelayAbs (DeliverDown, AppEnd, ...) is exactly what the property RefinesAbs checks.
 Only(v, val) == LET f == [phase |-> phase, want |-> want, reach |-> reach, dials |-> dials, sentUp |-> sentUp, gotUp |-> gotUp,
                          sentDown |-> sentDown, gotDown |-> gotDown, appClosed |-> appClosed, tgtClosed |-> tgtClosed,
-                         cleanApp |-> cleanApp, cleanTgt |-> cleanTgt, appSaw |-> appSaw, tgtSaw |-> tgtSaw, fault |-> fault]
+                         cleanApp |-> cleanApp, cleanTgt |-> cleanTgt, appSaw |-> appSaw, tgtSaw |-> tgtSaw, fault |-> fault,
+                         lapsed |-> lapsed]
                      g == [f EXCEPT ![v] = val]
                  IN /\ phase' = g.phase /\ want' = g.want /\ reach' = g.reach /\ dials' = g.dials /\ sentUp' = g.sentUp
                     /\ gotUp' = g.gotUp /\ sentDown' = g.sentDown /\ gotDown' = g.gotDown /\ appClosed' = g.appClosed
                     /\ tgtClosed' = g.tgtClosed /\ cleanApp' = g.cleanApp /\ cleanTgt' = g.cleanTgt /\ appSaw' = g.appSaw
-                    /\ tgtSaw' = g.tgtSaw /\ fault' = g.fault
+                    /\ tgtSaw' = g.tgtSaw /\ fault' = g.fault /\ lapsed' = g.lapsed
 
 AppRead ==
   /\ ep["A"] # "dropped" /\ rq[6] > 0 /\ appSaw = "no"
@@ -217,16 +218,23 @@ Move(p) ==
             /\ UNCHANGED pump
   /\ UNCHANGED <<absVars, fin, rst, ep, relay, noise>>
 
+WsClose(p) == Link = "ws" /\ IsLink(Src(p)) /\ "WsCloseEndsBoth" \in Dev
 \* the source ended: forward closes (shuts down) its sink.  On a QUIC link the shutdown completes only when the
 \* peer has read the stream to the end.
 SrcEof(p) ==
   /\ pump[p] = "run" /\ relay[Owner(p)] \in {"run", "grace"} /\ rq[Src(p)] = 0 /\ fin[Src(p)] = 2 /\ ~rst[Src(p)]
   /\ IF "NoSinkClose" \in Dev
        THEN UNCHANGED <<fin, ep>> /\ pump' = [pump EXCEPT ![p] = "closed"]
-       ELSE /\ fin' = [fin EXCEPT ![Snk(p)] = IF fin[Snk(p)] = 0 /\ ~rst[Snk(p)] THEN 1 ELSE fin[Snk(p)]]
+       ELSE /\ fin' = [c \in Chan |->
+                       IF c = Snk(p) THEN (IF fin[c] = 0 /\ ~rst[c] THEN 1 ELSE fin[c])
+                       ELSE IF WsClose(p) /\ c = Back(Src(p)) THEN (IF fin[c] = 0 /\ ~rst[c] THEN 1 ELSE fin[c])
+                       ELSE fin[c]]
             /\ ep' = [ep EXCEPT ![Writer(Snk(p))] = IF ep[Writer(Snk(p))] = "open" THEN "shut" ELSE ep[Writer(Snk(p))]]
             /\ pump' = [pump EXCEPT ![p] = IF Link = "quic" /\ IsLink(Snk(p)) /\ "QuicNoWaitStopped" \notin Dev THEN "closing" ELSE "closed"]
-  /\ UNCHANGED <<absVars, sq, rq, rst, relay, noise>>
+  \* deviation WsCloseEndsBoth: the end of a WebSocket link direction is a Close frame; the library that reads it answers
+  \* with its own Close at once and refuses every later message in the opposite direction of that connection
+  /\ rst' = IF WsClose(p) /\ "NoSinkClose" \notin Dev THEN [rst EXCEPT ![Src(p)] = TRUE] ELSE rst
+  /\ UNCHANGED <<absVars, sq, rq, relay, noise>>
 
 QuicStopped(p) ==
   /\ pump[p] = "closing"
@@ -314,7 +322,8 @@ GraceTimeout(r) ==
   /\ relay[r] = "grace" /\ "JoinBoth" \notin Dev
   /\ ~ENABLED Internal
   /\ DropRelay(r)
-  /\ UNCHANGED <<absVars, pump, noise>>
+  /\ IF appClosed # "no" \/ tgtClosed # "no" THEN RA!Lapse ELSE UNCHANGED absVars
+  /\ UNCHANGED <<pump, noise>>
 
 -----------------------------------------------------------------------------
 (* C15: the link between client and server fails.  Both link connections are reset (a middlebox or a network that
@@ -354,7 +363,7 @@ Spec == Init /\ [][Next]_vars /\ Fair
 \* refinement: every step is a step of the abstract relay (or invisible to it)
 AbsNext == \/ RA!Open(1, Reach) \/ RA!AppWrite(1) \/ RA!TgtWrite(1)
            \/ \E h \in {"fin", "close", "rst"} : RA!AppClose(h) \/ RA!TgtClose(h)
-           \/ RA!Fault
+           \/ RA!Fault \/ RA!Lapse
            \/ RA!Dial(1) \/ RA!DeliverUp(1, TRUE) \/ RA!DeliverDown(1, TRUE)
            \/ \E h \in {"eof", "rst"} : RA!AppEnd(h) \/ RA!TgtEnd(h)
 RefinesAbs == [][AbsNext]_absVars
